@@ -264,10 +264,10 @@ def check_one(sh, recipe, cfg):
             pass
         sh.violation(key, 'syntax tree differs from the uncommented output: %r vs %r' % (text[:300], plain[:300]), case)
         return text
-    if cfg.get('max_seq_len') is not None:
+    if cfg.get('max_seq_len') is not None or cfg.get('depth') is not None:
         # under truncation only inertness is judged here (the commented and the uncommented value are cut alike and no printer failed);
         # which comments survive a cut is C10's / C11's business
-        sh.counters['inertness verified under max_seq_len'] += 1
+        sh.counters['inertness verified under max_seq_len / depth'] += 1
         return text
     try:
         words = comment_words(text)
@@ -419,12 +419,20 @@ def run_shard(sh):
         if check_one(sh, recipe, cfg) is not SKIP:
             sh.case((repr(recipe), sorted(cfg.items())))
             if i % 3 == 0:
-                # (depth limits are left out: a commented str dict key is cut like any value while a bare one stays visible - the listed C11
-                #  finding - so the two outputs differ there for a reason that is not the comment's doing)
-                cfg2 = dict(cfg, max_seq_len=rng.choice([0, 1, 2, 3]))
-                if "'set'" in repr(recipe) or "'frozenset'" in repr(recipe):
-                    # a commented element is hashed by identity: the commented and the stripped set iterate differently, so a cut keeps different elements
+                has_set = "'set'" in repr(recipe) or "'frozenset'" in repr(recipe)
+                keys_commented = any(kind == 'k' for _, kind in slots)
+                choices = []
+                if not has_set:
+                    # (a commented set element is hashed by identity: the commented and the stripped set iterate differently, so a cut keeps
+                    #  different elements)
+                    choices += [{'max_seq_len': rng.choice([0, 1, 2, 3])}]
+                if not keys_commented:
+                    # (a commented str dict key is cut like any value while a bare one stays visible - the listed C11 finding - so with commented
+                    #  keys the two outputs differ for a reason that is not the comment's doing)
+                    choices += [{'depth': rng.choice([1, 2, 3])}]
+                if not choices:
                     continue
+                cfg2 = dict(cfg, **rng.choice(choices))
                 check_one(sh, recipe, cfg2)
                 sh.case((repr(recipe), sorted(cfg2.items())))
         sh.counters['random shapes'] += 1
